@@ -1,6 +1,6 @@
 ---- MODULE MC_WorkPool ----
 EXTENDS WorkPool
-CONSTANTS w1, w2, s1, s2
+CONSTANTS w1, w2, w3, s1, s2
 \* submitter s1 = a photon thread (PhotonContext awaiter = semaphore), s2 = a plain OS thread (StdContext awaiter = promise)
 C(t, c) == [op |-> "call", t |-> t, ctx |-> c]
 A(t) == [op |-> "async", t |-> t, ctx |-> "none"]
@@ -25,4 +25,5 @@ CfgWitness == {MkCfg("thread", "late_copy", Prog2), MkCfg("thread", "no_yield_to
 CfgWitnessQ == {MkCfg("thread", "late_copy", Prog2), MkCfg("pooled", "no_yield_to", Prog2), MkCfg("thread", "no_drain", Prog2),
                 MkCfg("inline", "resume_early", Prog2), MkCfg("inline", "marker_short", Prog2), MkCfg("inline", "no_delete", Prog2)}
 Sym == Permutations({w1, w2})
+Sym3 == Permutations({w1, w2, w3})
 ====
